@@ -114,6 +114,31 @@ def spec_call(ex, name, e, env):
         return z3.BoolVal(ex.ev(e.args[0], env) is None)
     if name == "real":
         return to_real(lift(ex.ev(e.args[0], env)))
+    if name == "cnt":
+        # cnt(container, i): number of members of the dict/set (by key) below i
+        from vf.lemmas import z3lemmas as zl
+        h = ex.deref(ex.ev(e.args[0], env))
+        i = to_int(lift(ex.ev(e.args[1], env)))
+        dom = h.dom
+        key = ("cnt", dom.sexpr())
+        memo = ex.__dict__.setdefault("fn_memo", {})
+        if key not in memo:
+            memo[key] = zl.cnt_def(dom) + zl.cnt_lemmas(dom)
+            ex.assumptions.add("lemma.cnt-diff (proved by z3 induction schema in vf/lemmas/z3lemmas.py): 0 <= cnt(a,j)-cnt(a,i) <= j-i")
+        for fact in memo[key]:
+            if not any(fact.eq(q) for q in ex.pc):
+                ex.pc.append(fact)
+        return zl.CNT(dom, i)
+    if name == "lsum":
+        h = ex.deref(ex.ev(e.args[0], env))
+        if isinstance(h, Obj):
+            for k, x in h.fields:
+                if isinstance(x, Ref) and isinstance(ex.heap[x.id], (AList, CList)):
+                    h = ex.heap[x.id]
+                    break
+        a = ex.as_alist(h)
+        n = to_int(lift(ex.ev(e.args[1], env))) if len(e.args) > 1 else a.len
+        return lsum(ex, a.arr, n, a.es)
     if name in ex.c.defs:
         args = [ex.ev(a, env) for a in e.args]
         return ex.c.defs[name](ex, *args)
